@@ -27,7 +27,7 @@ CHECKS.update({
    TRUST + " The union multiset is the specification's ghost bag; the comparison is real sketch vs real sketch. Simulated merge trees also merge through Encode + DecodeAndMergeWith; every other slot is built by the library's preset constructors where one matches.", SK + " (twin sketch fed the specification's bag)", "6 (C02)"),
  "C10": ("sketch", "TLC checks X_Stats (exact count/min/max are functions of the absorbed multiset) over histories of the exact variant (adds incl. weight 0 and refused values, merge, copy, clear, reweight, encode/decode); generated histories are replayed on real DDSketchWithExactSummaryStatistics: count/min/max == the specification's, sum within 16*2^-53*sum|v*w| of the exact rational sum (math/big), quantiles == plain answers clamped to [min,max].",
    TRUST + " Abstraction relation R for token values; sums near MaxFloat64 (overflow) not compared; ChangeMapping's rescaling is under C17.", SK, "6 (C10)"),
- "C11": ("sketch", "TLC checks the weighted K_Rank (answer bin holds a token whose cumulative-weight interval is within one unit of q(W-1)) for all weighted multisets with weights 1/4..3 units and totals from 1/4 unit (weighted adds and Reweight); generated histories are replayed on real sketches and every q=a/8 answer must be within alpha of an allowed token and between the reported min and max.",
+ "C11": ("sketch", "TLC checks the weighted K_Rank (answer bin holds a token whose cumulative-weight interval is within one unit of q(W-1)) for all weighted multisets with weights 1/4..3 units and totals from 1/4 unit (weighted adds and Reweight); generated histories are replayed on real sketches and every q=a/8 answer (single query and batch query) must be within alpha of an allowed token and between the reported min and max.",
    TRUST + " Abstraction relation R; weights multiples of 1/4 up to 2^10 units.", SK, "6 (C11)"),
  "C12": ("sketch", "TLC checks K_Content/K_Ends/K_Monotone incl. collapsing store kinds; generated histories (adds of all sign mixes, merge, copy, clear, decode) are replayed on real sketches of all store kinds and after every step count/emptiness/zero weight, min/max (within alpha of the specification's extreme; clamped bin for collapsing stores), monotonicity and [min,max] containment of q=a/8 answers, batch==single queries, ForEach (one callback per bin, positive weights, total, early stop) and GetSum are checked.",
    TRUST + " Abstraction relation R; sums near MaxFloat64 not compared.", SK, "6 (C12)"),
